@@ -31,6 +31,7 @@ theorem observer_rng (c : Cfg) (s : State) (op : Op) (h : op.isObserver = true) 
   | summary => exact Or.inl rfl
   | cost => left; simp only [step, costStep]; split <;> rfl
   | getCost => left; simp only [step, costStep]; split <;> rfl
+  | getCostB => left; simp only [step, costStep]; split <;> rfl
   | setSpec k => simp [Op.isObserver] at h
   | forward => simp [Op.isObserver] at h
 
@@ -40,6 +41,7 @@ theorem failed_cost_leaves_state (c : Cfg) (s : State) (op : Op) (h : (step c s 
   cases op with
   | cost => simp only [step, costStep] at h ⊢; split at h <;> simp_all
   | getCost => simp only [step, costStep] at h ⊢; split at h <;> simp_all
+  | getCostB => simp only [step, costStep] at h ⊢; split at h <;> simp_all
   | exportNet => simp [step, exportStep] at h
   | exportNoBn => simp [step, exportStep] at h
   | summary => simp [step] at h
@@ -79,6 +81,27 @@ theorem observer_output_stable (c : Cfg) (s : State) (ops : List Op) (h : ∀ op
     (step c (run c s ops) op).2 = (step c s op).2 :=
   observer_out_of_core c _ _ op ho (run_observers_core c ops h s)
 
+/-- **a cost value does not depend on which metrics were queried before, nor on any other observer
+call, and the search in between is free to continue** — for EVERY sequence over the full alphabet, an
+observer returns what it returns on a twin wrapper that ran the same sequence without the observer
+calls (exactly when sampling draws no random numbers; in particular `get_cost('b')` after
+`get_cost('a')` = `get_cost('b')` alone, and a specification switched away and back) -/
+theorem observer_value_as_if_first (c : Cfg) (hnd : ∀ tr, sampleDraws c tr = false) (s : State)
+    (ops : List Op) (op : Op) (ho : op.isObserver = true) :
+    (step c (run c s ops) op).2 = (step c (run c s (ops.filter fun o => !o.isObserver)) op).2 :=
+  observer_out_of_core c _ _ op ho (run_sim_exact c hnd ops s s rfl)
+
+/-- mixed sub-module modes (BatchNorm frozen inside a training wrapper, or the reverse) are preserved
+flag by flag by every observer: the next forward updates the running statistics exactly when it would
+have -/
+theorem observers_keep_submodule_modes (c : Cfg) (s : State) (ops : List Op)
+    (h : ∀ op ∈ ops, op.isObserver = true) :
+    (run c s ops).strain = s.strain ∧ (run c s ops).bntrain = s.bntrain ∧
+    (run c s ops).droptrain = s.droptrain ∧ (run c s ops).wtrain = s.wtrain := by
+  have hc := run_observers_core c ops h s
+  simp only [core, obsStateExact, Prod.mk.injEq] at hc
+  exact ⟨hc.2.1, hc.2.2.1, hc.2.2.2.1, hc.1⟩
+
 /-- `export(add_bn=False)` returns what `export()` returns (the flag looks for an attribute no layer
 carries) -/
 theorem export_nobn_eq_export (c : Cfg) (s : State) : step c s .exportNoBn = step c s .exportNet := rfl
@@ -87,21 +110,21 @@ theorem export_nobn_eq_export (c : Cfg) (s : State) : step c s .exportNoBn = ste
 same parameters, buffers and mode — in eval mode, or whenever nothing in the forward draws random
 numbers -/
 theorem forward_after_observers (c : Cfg) (s : State) (ops : List Op) (h : ∀ op ∈ ops, op.isObserver = true)
-    (hnd : sampleDraws c s.strain = false) (hdrop : (c.dropout && s.strain) = false) :
+    (hnd : sampleDraws c s.strain = false) (hdrop : (c.dropout && s.droptrain) = false) :
     (step c (run c s ops) .forward).2 = (step c s .forward).2 := by
   have hc := run_observers_core c ops h s
   simp only [core, obsStateExact, Prod.mk.injEq] at hc
-  obtain ⟨_, h2, h3, h4, h5, _, _⟩ := hc
-  simp only [step, forwardStep, h2, h3, h4, h5, hnd, hdrop, Bool.or_self, Bool.false_eq_true, if_false]
+  obtain ⟨_, h2, hb, hd, h3, h4, h5, _, _⟩ := hc
+  simp only [step, forwardStep, h2, hb, hd, h3, h4, h5, hnd, hdrop, Bool.or_self, Bool.false_eq_true, if_false]
   rw [sample_nodraw c s.strain (run c s ops).rng s.rng s.theta hnd]
 
 /-- **switching the cost specification and back restores the same cost values** — with any observers
 before, in between and after. -/
 theorem spec_switch_roundtrip (c : Cfg) (s : State) (k' : Spec) (o1 o2 o3 : List Op)
     (h1 : ∀ op ∈ o1, op.isObserver = true) (h2 : ∀ op ∈ o2, op.isObserver = true)
-    (h3 : ∀ op ∈ o3, op.isObserver = true) (q : Op) (hq : q = .cost ∨ q = .getCost) :
+    (h3 : ∀ op ∈ o3, op.isObserver = true) (q : Op) (hq : q = .cost ∨ q = .getCost ∨ q = .getCostB) :
     (step c (run c s (o1 ++ [.setSpec k'] ++ o2 ++ [.setSpec s.spec] ++ o3)) q).2 = (step c s q).2 := by
-  have hqo : q.isObserver = true := by rcases hq with rfl | rfl <;> rfl
+  have hqo : q.isObserver = true := by rcases hq with rfl | rfl | rfl <;> rfl
   apply observer_out_of_core c _ _ q hqo
   simp only [run_append]
   rw [run_observers_core c o3 h3]
@@ -110,8 +133,8 @@ theorem spec_switch_roundtrip (c : Cfg) (s : State) (k' : Spec) (o1 o2 o3 : List
   have e2 := run_observers_core c o2 h2 (run c a [.setSpec k'])
   generalize hb : run c (run c a [.setSpec k']) o2 = b at e2 ⊢
   simp only [core, obsStateExact, Prod.mk.injEq, run, List.foldl, step] at e1 e2 ⊢
-  obtain ⟨a1, a2, a3, a4, a5, a6, a7⟩ := e1
-  obtain ⟨b1, b2, b3, b4, b5, b6, b7⟩ := e2
+  obtain ⟨a1, a2, a8, a9, a3, a4, a5, a6, a7⟩ := e1
+  obtain ⟨b1, b2, b8, b9, b3, b4, b5, b6, b7⟩ := e2
   simp [*]
 
 /-- while the other specification is installed the cost is that specification's (the switch is not a
@@ -127,11 +150,14 @@ theorem spec_switch_takes_effect (c : Cfg) (s : State) (k' : Spec) (theta : Thet
 /-! ### regression witnesses: the pinned tree violated the property -/
 
 def mpsTrain : Cfg := ⟨.mps, false, false, false, false, true, true, false, false⟩
+def pitFrozenBn : Cfg := ⟨.pit, false, false, false, false, true, false, true, false⟩
 def snGumbel : Cfg := ⟨.sn, true, false, false, false, true, false, true, false⟩
 /-- a wrapper in training mode holding soft coefficients -/
-def training0 : State := ⟨true, true, ⟨false, none⟩, 0, 0, 0, false, .single 0, 0⟩
+def training0 : State := ⟨true, true, true, true, ⟨false, none⟩, 0, 0, 0, false, .single 0, 0⟩
+/-- a wrapper in training mode whose BatchNorm sub-modules were frozen with `.eval()` -/
+def frozenBn0 : State := ⟨true, true, false, true, ⟨false, none⟩, 0, 0, 0, false, .dict 0, 0⟩
 /-- a SuperNet in training mode holding a Gumbel sample -/
-def trainingG : State := ⟨true, true, ⟨false, some 0⟩, 1, 0, 0, false, .single 0, 0⟩
+def trainingG : State := ⟨true, true, true, true, ⟨false, some 0⟩, 1, 0, 0, false, .single 0, 0⟩
 
 /-- before fe897bf: an export in the middle of training left every inner module in eval mode and the
 hard (eval-mode) coefficients in place — `MPS.cost` read next was the hard cost -/
@@ -147,8 +173,14 @@ theorem pinned_summary_not_observer :
     (step snGumbel (stepPinned snGumbel trainingG .summary).1 .cost).2 ≠ (step snGumbel trainingG .cost).2 := by
   decide
 
+/-- a frozen BatchNorm stays frozen across an export, and the metric `'b'` is the same whether or not
+`'a'` was queried first -/
+example : (step pitFrozenBn frozenBn0 .exportNet).1.bntrain = false ∧
+    (step pitFrozenBn (step pitFrozenBn frozenBn0 .getCost).1 .getCostB).2 = (step pitFrozenBn frozenBn0 .getCostB).2 := by
+  decide
+
 /-- the repaired calls on the same witnesses -/
-example : obsStateExact (step mpsTrain training0 .exportNet).1 = obsStateExact training0 ∧
+example : (step mpsTrain training0 .exportNet).1 = { training0 with rng := 1 } ∧
           (step snGumbel trainingG .summary).1 = trainingG := by decide
 
 /-! ### the hypotheses are satisfiable -/
